@@ -105,6 +105,12 @@ pub(super) fn dispatch(repo: &gix::Repository, matches: &clap::ArgMatches) -> Re
 
         stupid.branch_move(Some(old_branchname.as_ref()), new_branchname.as_ref())?;
         stack.deinitialize()?;
+        // Opening the renamed stack creates its patch references.
+        Stack::from_branch_name(
+            repo,
+            new_branchname,
+            InitializationPolicy::RequireInitialized,
+        )?;
     } else {
         stupid.branch_move(Some(old_branchname.as_ref()), new_branchname.as_ref())?;
     }
